@@ -142,6 +142,7 @@ func UniqueKeyFromLabelsSelector(ls *v1.LabelSelector) (string, error) {
 			currentStr = newStr
 		}
 		reqStr += currentStr
+		reqStr += ";" // separate requirements, so different selectors may not get same string
 	}
 	return hex.EncodeToString(sha1.New().Sum([]byte(reqStr))), nil //nolint:gosec // Non-crypto use
 }
